@@ -412,7 +412,7 @@ def run(tier: str, only=None) -> core.Result:
     # determinism audit in fresh workers
     audit_total = audit_bad = 0
     for cfg in CONFIGS:
-        a = workers.audit(cfg, HANDLER, wcases, answers[cfg["name"]], AUDIT_MOD)
+        a = workers.audit(cfg, HANDLER, wcases, answers[cfg["name"]], AUDIT_MOD, cap=20000)
         audit_total += a["reasked"]
         audit_bad += a["mismatches"]
         if a["mismatches"]:
